@@ -225,10 +225,7 @@ func c17ChainWithInvalid(c c17Case) config.PluginsConfig {
 }
 
 func freePort() int {
-	ln, err := net.Listen("tcp", "127.0.0.1:0")
-	if err != nil {
-		panic(err)
-	}
+	ln := vh.ListenLoopback()
 	defer ln.Close()
 	return ln.Addr().(*net.TCPAddr).Port
 }
